@@ -21,6 +21,7 @@
  *   - the alternatives are tried with full backtracking ("spells ONE OF the alternatives" names no order);
  *   - "a decimal index" is the maximal run of digits at that place (1 or more digits, leading zeros
  *     allowed); patterns where something that can start with a digit directly follows an enumeration
+ *     (another enumeration, or a {..} group with an alternative that is empty or starts with a digit)
  *     are not well-formed, so no other reading could differ;
  *   - a '/' inside the path (not last) is literal text.
  *
@@ -72,6 +73,7 @@ static inline bool wf_pattern(const char *p)
         char c = p[i];
         if(c == '#') {
             size_t d = 0;
+            if(after_enum) return false;                              /* "#2#3": where does the first index end? */
             i++;
             while(spec_is_digit(p[i])) { i++; d++; if(d > SPEC_MAXDIGITS) return false; }
             if(d == 0) return false;
